@@ -260,8 +260,18 @@ def mk_own():
             self.q < 2
 
     @vsc.randobj
+    class Win(object):
+        def __init__(self):
+            self.v = vsc.rand_bit_t(3)
+            self.lo = vsc.rand_bit_t(3)
+            self.hi = vsc.rand_bit_t(3)
+
+    @vsc.randobj
     class TopOwn(object):
         def __init__(self, sizes):
+            self.wins = vsc.rand_list_t(Win())
+            for _ in range(len(sizes)):
+                self.wins.append(Win())
             self.frozen = vsc.attr(Frozen())
             self.frozen.q = 5
             self.one = vsc.rand_attr(Wrap(sizes[0]))
@@ -270,6 +280,14 @@ def mk_own():
                 self.l.append(Wrap(n))
             self.direct = vsc.rand_list_t(Cell(1))
             self.direct.append(Cell(sizes[-1]))
+
+        @vsc.constraint
+        def cw(self):
+            # element fields on both sides of a membership, element by element
+            with vsc.foreach(self.wins, idx=True) as i:
+                self.wins[i].lo == i + 1
+                self.wins[i].hi == i + 4
+                self.wins[i].v.inside(vsc.rangelist(self.wins[i].lo, self.wins[i].hi))
     return TopOwn
 
 
@@ -294,6 +312,7 @@ def run_indexed(job):
             for k, w in enumerate(o.l):
                 d["l[%d]" % k] = [int(v) for v in w.cell.vals]
             fz = (int(o.frozen.q), [int(v) for v in o.frozen.rl], len(o.frozen.rl), int(o.frozen.rl.size))
+            d["__wins"] = [(int(w.v), int(w.lo), int(w.hi)) for w in o.wins]
             return out[0], d, fz
         for x in explore(run, bound=1, cap=4000):
             cnt["executions"] += 1
@@ -305,6 +324,12 @@ def run_indexed(job):
             if res_ != "ok":
                 bad("indexed_call_failed", "own-block foreach, sizes %r: call ended with %r" % (sizes, res_), res_, "returns", x.choices)
                 continue
+            wins = d.pop("__wins")
+            for k, (v, lo, hi) in enumerate(wins):
+                if not (lo == k + 1 and hi == k + 4 and v in (lo, hi)):
+                    bad("index_denotes_wrong_element", "sizes %r: wins[%d] = (v=%d, lo=%d, hi=%d); the foreach demands lo=%d, hi=%d and "
+                        "v inside {lo, hi} of the SAME element (all: %r)" % (sizes, k, v, lo, hi, k + 1, k + 4, wins), wins,
+                        "per-element membership", x.choices)
             for path, vals in d.items():
                 if not all(v < 2 + i for i, v in enumerate(vals)):
                     bad("subobject_block_not_enforced", "sizes %r: %s.vals = %r violates the foreach of its own block (vals[i] < 2+i); all "
